@@ -115,3 +115,49 @@ class FailingStream:
 
     def flush(self):
         pass
+
+
+class PausedCall:
+    """Run call_fn in a thread and stop it at the first 'line' event inside function [funcname] of psutil/_common.py
+    (e.g. 'wrap_numbers': the caller holds _nowrap_lock; 'run': _wn.lock is held as well) until release() or for at most
+    [hold] seconds (so that a fork that waits for the locks can go ahead)."""
+
+    def __init__(self, call_fn, funcname, hold=0.4, suffix="psutil/_common.py"):
+        self.paused, self.resume, self.done = threading.Event(), threading.Event(), threading.Event()
+        self.result = None
+        st = {"hit": False}
+
+        def local(frame, event, arg):
+            if event == "line" and not st["hit"]:
+                st["hit"] = True
+                self.paused.set()
+                self.resume.wait(hold)
+            return local
+
+        def tracer(frame, event, arg):
+            co = frame.f_code
+            if event == "call" and co.co_name == funcname and co.co_filename.endswith(suffix):
+                return local
+            return None
+
+        def body():
+            sys.settrace(tracer)
+            try:
+                self.result = call_fn()
+            finally:
+                sys.settrace(None)
+                self.done.set()
+                self.paused.set()
+
+        self.thread = threading.Thread(target=body, daemon=True)
+        self.thread.start()
+
+    def wait_paused(self, t=10):
+        return self.paused.wait(t) and not self.done.is_set()
+
+    def release(self):
+        self.resume.set()
+
+    def join(self, t=20):
+        self.thread.join(t)
+        return self.result
